@@ -4,6 +4,6 @@ CONSTANTS
   Depth = 30
   Seed = 1
   Defects = {}
-INVARIANTS ReadingFacts Consistent Emit
-PROPERTIES NoJump PauseRules
+INVARIANTS ReadingFacts DomConsistent Emit
+PROPERTIES DomNoJump PauseRules
 CHECK_DEADLOCK FALSE
